@@ -323,6 +323,48 @@ def thread_variants(F):
                 P["term"] = dict(P["term"])
                 P["term"]["t"] = cclone["id"]
                 did = changed = True
+        # `x.is_ok()` / `is_err()` / `is_some()` / `is_none()` on a value whose variant the predecessor has just built (a helper that
+        # re-wraps a Result, expanded): the call is replaced, per such predecessor, by the constant it must return
+        PRED = {"Result::<T, E>::is_ok": ("Ok",), "Result::<T, E>::is_err": ("Err",), "Option::<T>::is_some": ("Some",), "Option::<T>::is_none": ("None",)}
+        for C in list(F["blocks"]):
+            ct = C["term"]
+            if ct["k"] != "call" or C.get("cleanup") or not isinstance(ct.get("t"), int) or ct["dst"].get("p") or len(ct.get("args", [])) != 1:
+                continue
+            which = next((v for k, v in PRED.items() if (ct.get("callee") or "").endswith(k)), None)
+            a0 = ct["args"][0]
+            if which is None or a0.get("k") not in ("move", "copy") or a0["p"].get("p"):
+                continue
+            # the argument is a reference taken in this block to a whole local (or that local itself)
+            target = a0["p"]["l"]
+            okC = True
+            for st in C["stmts"]:
+                rv = st.get("rv", {})
+                if st["k"] in ("storage_live", "storage_dead", "nop", "fake_read"):
+                    continue
+                if st["k"] == "assign" and not st["dst"].get("p") and rv.get("k") == "ref" and not rv["p"].get("p") and st["dst"]["l"] == target:
+                    target = rv["p"]["l"]
+                elif st["k"] == "assign" and not st["dst"].get("p") and rv.get("k") == "use" and rv["a"].get("k") in ("move", "copy") and not rv["a"]["p"].get("p") and st["dst"]["l"] == target:
+                    target = rv["a"]["p"]["l"]
+                else:
+                    okC = False
+            if not okC:
+                continue
+            for P, extra, xl in _sources(F, preds, C["id"], target):
+                if P["term"]["k"] != "goto":
+                    continue
+                vn = _known_variant(P["stmts"], xl, names=True)
+                if vn is None:
+                    vn = _tested_variant(F, _all_preds(F), P, _moved_from(P["stmts"], xl), names=True)
+                if vn not in ("Ok", "Some", "Err", "None"):
+                    continue
+                val = 1 if vn in which else 0
+                clone = {"id": len(F["blocks"]), "stmts": copy.deepcopy(extra) + copy.deepcopy(C["stmts"]) +
+                         [{"k": "assign", "dst": {"l": ct["dst"]["l"]}, "rv": {"k": "use", "a": {"k": "const", "ty": "bool", "value": val}}, "sp": ct.get("sp")}],
+                         "term": {"k": "goto", "t": ct["t"], "sp": ct.get("sp"), "threaded_from": C["id"]}}
+                F["blocks"].append(clone)
+                P["term"] = dict(P["term"])
+                P["term"]["t"] = clone["id"]
+                did = changed = True
         if did:
             preds = {}
             for b in F["blocks"]:
@@ -789,7 +831,7 @@ def normalise(prog):
     aliased = alias_renames(prog)
     prog.aliased = aliased
     # functions whose body differs from the pinned tree's get flag threading (identity on the pinned tree)
-    rewritten = [p for p, f in prog.fns.items() if f.get("blocks") and f.get("crate") in prog.crates and _changed_since_baseline(p, f)]
+    rewritten = {p for p, f in prog.fns.items() if f.get("blocks") and f.get("crate") in prog.crates and _changed_since_baseline(p, f)}
     expanded = set()
     for _ in range(MAX_ROUNDS):
         new = {p: f for p, f in prog.fns.items() if _eligible(p, f, kn)}
@@ -855,9 +897,9 @@ def normalise(prog):
     for f in prog.fns.values():
         if f.get("inlined"):
             thread_variants(f)
-    for p in rewritten:
-        if p in prog.fns:
-            thread_consts(prog.fns[p])
+    for p, f in prog.fns.items():
+        if p in rewritten or f.get("inlined"):
+            thread_consts(f)
     # drop helpers that are no longer called and are not part of the public surface
     still_called = {b["term"].get("callee") for f in prog.fns.values() for b in f["blocks"] if b["term"]["k"] == "call"}
     for p in list(expanded):
